@@ -787,7 +787,7 @@ def apply_callable_expr(ex, fexpr, args, st, node):
 NAME_BUILTINS = {
     'isinstance': b_isinstance, 'len': b_len, 'int': b_int, 'str': b_str, 'bool': b_bool, 'print': b_print,
     'hasattr': b_hasattr, 'getattr': b_getattr, 'tuple': b_tuple, 'list': b_list, 'type': b_type,
-    'float': b_float, 'repr': b_repr, 'map': b_map,
+    'float': b_float, 'repr': b_repr, 'map': b_map, 'set': lambda ex, e, st: ex.py_set(e, st),
 }
 
 
